@@ -73,3 +73,56 @@ pub fn gen_case(rng: &mut Rng, thorough: bool) -> J {
     }
     json!({"mode": "ops", "spec": enc_spec(&spec.0), "init": enc_value(&init.0), "ops": ops})
 }
+
+/// K-algo (in-run operator calls): drives the real `AlgoContext` (`next_individual` / `process_individual_eval`)
+/// with generated objective values and rejections and records, through hook H3, every crossover and mutation the
+/// algorithm performs on its own population (parents in ranking order, adaptive parameters).  The records are
+/// written in the same form as K-ops lines, so the driver checks them with the same acceptors and predicates -
+/// on populations that only exist after many generations.
+pub fn gen_algo_case(rng: &mut Rng, thorough: bool) -> J {
+    use cambrian::verif_hooks::{offspring_log_enable, offspring_log_take, AlgoContext};
+    let mut cfg = GenCfg::quick();
+    cfg.max_depth = 3; cfg.max_width = 3; cfg.max_array = 3; cfg.max_map = 4;
+    let d0 = if rng.chance(1, 2) { 1 } else { 0 };
+    let spec = spec::Spec(gen_spec(rng, &cfg, d0));
+    let sample_size = 1 + rng.below(3) as usize;
+    let guess = if rng.chance(1, 3) { Some(value::Value(gen_value(rng, &spec.0, &cfg))) } else { None };
+    let n_steps = if thorough { 200 + rng.below(600) } else { 40 + rng.below(120) } as usize;
+    let pool = rng.below(4);
+    offspring_log_enable();
+    let res = catch_unwind(AssertUnwindSafe(|| {
+        let mut ctx = AlgoContext::new(spec.clone(), sample_size, None, guess.clone());
+        let mut inflight = Vec::new();
+        let width = 1 + rng.below(4) as usize;
+        for step in 0..n_steps {
+            while inflight.len() < width { inflight.push(ctx.next_individual()); }
+            let k = rng.below(inflight.len() as u64) as usize;
+            let ind = inflight.remove(k);
+            let val = if rng.chance(1, 8) { None } else {
+                let x = match pool { 0 => rng.range(-5, 5) as f64, 1 => -(step as f64), 2 => step as f64, _ => (rng.range(-1000, 1000) as f64) * 1e297 };
+                Some(tangram_finite::FiniteF64::new(x).unwrap())
+            };
+            ctx.process_individual_eval(ind, val);
+        }
+    }));
+    let recs = offspring_log_take();
+    let init_val = guess.clone().unwrap_or_else(|| spec.initial_value());
+    let mut ops: Vec<J> = Vec::new();
+    // keep the line size bounded: the first records, and a sample of the later ones (large populations)
+    let keep: Vec<usize> = (0..recs.len()).filter(|i| *i < 12 || i % 7 == 0).take(if thorough { 120 } else { 40 }).collect();
+    for i in keep {
+        let r = &recs[i];
+        ops.push(json!({
+            // with an empty population `create_offspring` takes the initial value instead of a crossover result
+            "parents": if r.parent_values.is_empty() { vec![enc_value(&init_val.0)] } else { r.parent_values.iter().map(|p| enc_value(&p.0)).collect::<Vec<_>>() },
+            "cp": pclass(r.crossover_prob), "sp": pclass(r.selection_pressure), "mp": pclass(r.mutation_prob),
+            "mscale": f64_model(r.mutation_scale), "source": r.source, "inRun": true,
+            "cross": enc_value(&r.crossover_result.0), "mut": enc_value(&r.mutation_result.0),
+            "probs": [f64_model(r.crossover_prob), f64_model(r.selection_pressure), f64_model(r.mutation_prob)],
+        }));
+    }
+    let mut line = json!({"mode": "ops", "inRun": true, "spec": enc_spec(&spec.0), "sampleSize": sample_size, "nRecords": recs.len(), "ops": ops,
+                          "init": enc_value(&guess.unwrap_or_else(|| spec.initial_value()).0)});
+    if let Err(e) = res { line["runPanic"] = json!(panic_msg(e)); }
+    line
+}
